@@ -13,7 +13,7 @@ RULE = {"C17": "per sensor model: all 4096 ADC codes (v = code*5/4096) through A
                "excluded as in the quantifier); monotonicity over the sorted sample; sim helper round trips for distances "
                "inside/outside the range. Non-trivial = voltage > 0 whose power-law value lies strictly inside the range "
                "(the law, not the clamp, decides) or a sim distance inside the range; distinct = distinct (model, input)."}
-REQUIRED = {"C17": {"adc-code": 3 * 4096, "special-double": 60, "random-double": 3000, "in-range-law-checked": 3000,
+REQUIRED = {"C17": {"near-pair": 300, "adc-code": 3 * 4096, "special-double": 60, "random-double": 3000, "in-range-law-checked": 3000,
                     "clamped-low": 100, "clamped-high": 100, "monotone-pair": 10000, "sim-roundtrip": 600,
                     "sim-outside-range": 100}}
 ASSUMPTIONS = {"C17": ["AnalogInputSim.setVoltage passes any double unchanged to AnalogInput.getVoltage (probed: yes, incl. inf and negatives)"]}
@@ -36,6 +36,8 @@ def shards(pid, tier, seed):
 
 
 _SENSORS = {}
+_RECENT = {}     # model -> recent inputs on that driver object (a replay must re-create history-dependent state)
+HIST = 48
 
 
 def sensors():
@@ -54,7 +56,10 @@ def check_voltage(acc, name, v, kind):
     c, e, lo, hi = MODELS[name]
     s, sim, _ = sensors()[name]
     sim.setVoltage(v)
-    case = {"mode": "voltage", "model": name, "v_bits": struct.pack(">d", v).hex()}
+    hist = _RECENT.setdefault(name, [])
+    case = {"mode": "voltage", "model": name, "v_bits": struct.pack(">d", v).hex(), "history": list(hist)}
+    hist.append(["v", struct.pack(">d", v).hex()])
+    del hist[:-HIST]
     acc.evaluations += 1
     acc.ev(kind)
     try:
@@ -103,7 +108,10 @@ def check_monotone(acc, name, pairs):
 def check_sim(acc, name, x):
     c, e, lo, hi = MODELS[name]
     s, _, helper = sensors()[name]
-    case = {"mode": "sim", "model": name, "x_bits": struct.pack(">d", float(x)).hex(), "is_int": isinstance(x, int)}
+    hist = _RECENT.setdefault(name, [])
+    case = {"mode": "sim", "model": name, "x_bits": struct.pack(">d", float(x)).hex(), "is_int": isinstance(x, int), "history": list(hist)}
+    hist.append(["d", struct.pack(">d", float(x)).hex()])
+    del hist[:-HIST]
     acc.evaluations += 1
     acc.ev("sim-roundtrip")
     try:
@@ -163,6 +171,10 @@ def run_shard(spec):
             for _ in range(spec["n"] // 3):
                 v = rand_double(rng)
                 pairs.append((v, check_voltage(acc, name, v, "random-double")))
+                if rng.random() < 0.3 and 0 < v < 6:
+                    # consecutive readings a hair apart on the same driver object (sub-LSB steps never occur in a code sweep)
+                    v2 = v + rng.choice([1e-6, 1e-5, 1e-4, 5e-4, 9e-4, -1e-4, -5e-4])
+                    pairs.append((v2, check_voltage(acc, name, v2, "near-pair")))
             check_monotone(acc, name, pairs)
         acc.samples.append({"model": "SharpIR2Y0A21", "random_voltages_head": [repr(p[0]) for p in pairs[:5]]})
     else:
@@ -174,12 +186,31 @@ def run_shard(spec):
                 xs.append(rng.uniform(lo, hi) if r < 0.7 else rng.uniform(-10, 2 * hi) if r < 0.9 else rng.randrange(0, int(2 * hi)))
             for x in xs:
                 check_sim(acc, name, x)
+                if rng.random() < 0.3 and lo < x < hi and isinstance(x, float):
+                    check_sim(acc, name, x + rng.choice([1e-4, 5e-3, -5e-3, 1e-2]))
         acc.samples.append({"mode": "sim", "model": name, "distances_head": [repr(x) for x in xs[13:18]]})
     return acc.result()
 
 
+def _feed_history(case):
+    """Re-create driver-object state: replay the inputs that preceded the case on the same object."""
+    for kind, bits in case.get("history", ()):
+        x = struct.unpack(">d", bytes.fromhex(bits))[0]
+        s, sim, helper = sensors()[case["model"]]
+        try:
+            if kind == "v":
+                sim.setVoltage(x)
+            else:
+                helper.setDistance(x)
+            s.getDistance()
+        except Exception:  # noqa
+            pass
+
+
 def replay(pid, case):
     acc = Acc()
+    _feed_history(case)
+    _RECENT.clear()
     if case["mode"] == "voltage":
         v = struct.unpack(">d", bytes.fromhex(case["v_bits"]))[0]
         check_voltage(acc, case["model"], v, "replay")
